@@ -171,6 +171,7 @@ pub struct CaseWriter {
     buf: Vec<String>,
     pub files: Vec<PathBuf>,
     pub total: usize,
+    pub base: usize,
 }
 impl CaseWriter {
     pub fn new(dir: &Path, module: &str, check: &str, model_obs: &str, per_file: usize) -> Self {
@@ -183,7 +184,14 @@ impl CaseWriter {
             buf: vec![],
             files: vec![],
             total: 0,
+            base: 0,
         }
+    }
+    /// case ids of this writer start at `base` (several writers in one run must not overlap)
+    pub fn with_base(mut self, base: usize) -> Self {
+        self.total = base;
+        self.base = base;
+        self
     }
     pub fn push(&mut self, term: String) -> usize {
         self.buf.push(term);
@@ -200,6 +208,7 @@ impl CaseWriter {
         }
         let k = self.files.len();
         let first = self.total - self.buf.len();
+        std::fs::create_dir_all(&self.dir).ok();
         let p = self.dir.join(format!("cases_{k}.v"));
         let mut s = String::new();
         writeln!(s, "(* generated by the rv harness; first case id = {first} *)").unwrap();
